@@ -97,6 +97,15 @@ func labelConfig(name string) *pb.BlobAccessConfiguration {
 	return &pb.BlobAccessConfiguration{Backend: &pb.BlobAccessConfiguration_Label{Label: name}}
 }
 
+// bareCreator applies no top-level decorator (workloads with empty objects).
+type bareCreator struct{ configuration.BlobAccessCreator }
+
+func (bareCreator) WrapTopLevelBlobAccess(ba blobstore.BlobAccess) blobstore.BlobAccess { return ba }
+
+func buildCompositeBare(c *sim.RunCtx, s *rt.Sched, clk *sim.Clock, top *pb.BlobAccessConfiguration, leaves map[string]configuration.BlobAccessInfo) (blobstore.BlobAccess, digest.KeyFormat, func()) {
+	return buildCompositeWith(c, s, clk, bareCreator{configuration.NewCASBlobAccessCreator(nil, 1<<20, nil)}, top, leaves)
+}
+
 func buildCompositeWith(c *sim.RunCtx, s *rt.Sched, clk *sim.Clock, base configuration.BlobAccessCreator, top *pb.BlobAccessConfiguration, leaves map[string]configuration.BlobAccessInfo) (blobstore.BlobAccess, digest.KeyFormat, func()) {
 	oldClock, oldLogger := clock.SystemClock, util.DefaultErrorLogger
 	clock.SystemClock, util.DefaultErrorLogger = clk, &recLogger{}
